@@ -6,6 +6,7 @@
 mod drivers;
 mod epoll;
 mod explore;
+mod sched;
 mod seqhooks;
 mod tracked;
 mod world;
